@@ -217,6 +217,7 @@ class Deref:
 class Field:
     p: object
     n: int
+    ty: str = ''
 
 
 @dataclass
@@ -347,7 +348,7 @@ def _parse_place(s):
         if i >= 0:
             left = inner[:i]
             base, _, fld = left.rpartition('.')
-            return Field(parse_place(base), int(fld))
+            return Field(parse_place(base), int(fld), inner[i + 2:].strip())
         return parse_place(inner)
     raise ValueError('place? ' + s)
 
